@@ -100,6 +100,11 @@ CHECKS = {
         text="The real tars.Protocol + generated dispatcher + recording servant run on real TarsServers (tcp/udp x pool 0/1/4 x handle timeout 0/250 ms). Raw clients pipeline requests over 1/3/10 connections: versions TARS/TUP/JSON, two-way/one-way, success with result values, tars.Error, plain error, tars_ping, unknown function, ids incl. negative/1/MaxInt32, request timeouts. Queue timeout and handle timeout are produced with gates, not sleeps. Per request: number of responses after a quiescence poll (1 / 0 for one-way, never 2), echoed id/version/packet type, TUP reply layout, return code and message, decoded result values per version, and how often the implementation ran (0 for ping, unknown function and queue timeout).",
         note="Arguments are those of one function (outFirst) encoded per version; other functions' codecs are covered by C01/C03. The TUP reply layout carries no return code, so codes are judged for TARS and JSON.",
         design="DESIGN.md §4 C10"),
+    "C16": dict(
+        technique="runtime monitor: child-process pipeline over generated IDL programs (tool exit/CPU-time watchdog, go build, codec-oracle engine on the compiled output), exhaustive token-boundary truncations and mutations for termination, regenerate-and-diff of the checked-in bindings",
+        text="Probe programs (one per language construct: every scalar as require/optional/default/vector/array, enums, consts, nested and cross-module structs/enums incl. two include levels, key declarations, interfaces with every parameter kind, keyword-like names) and seeded random programs are run through the working tree's tars2go under a CPU-time watchdog; every emitted package is compiled; the compiled corpus is driven by the codec engine (round trip, reference decoder, canonical form, unknown-field skipping, absent optionals on reuse); every token-boundary truncation, sampled token deletions/duplications/swaps, random bytes, token soup and degenerate megabyte inputs must terminate, truncations inside a definition with a diagnostic; the framework's own IDL is regenerated with the Makefile flags and compared with the checked-in bindings after dropping the banner and gofmt normalisation.",
+        note="A grammar-wide sample of programs, not all programs. Call transparency of generated interfaces is decided on the hand-written interface in C01 (generated interfaces are compiled here). IDL keywords as identifiers, escaped quotes in string literals and array lengths given by constants are not part of the generated language.",
+        design="DESIGN.md §4 C16"),
 }
 
 NOT_BUILT_REASON = "check not built yet in this session (runtime-monitoring design exists in DESIGN.md §4; machinery in progress) — not claimed until its monitor runs silent on the unchanged tree"
